@@ -46,6 +46,47 @@ pub fn qualified_value(m: &Model, ctx: &mut Ctx, rule: &str) {
     }
 }
 
+/// C12.chain: a value of an imported type that is itself a reference (`Ty2 ::= Ty1` in the exporting module, `IMPORTS Ty2`
+/// and `uval Ty2 ::= 0` in the importing one) is rendered by wrapping the literal in every type of the chain:
+/// `Ty2(Ty1(0))`. value_to_tokens is evaluated on such a value: the chain's types are written as bare names. The importing
+/// module imports what its IMPORTS clause names (plus the governing types of imported *values*): unless the code that
+/// extends a module's import list looks at the reference chains of values, `Ty1` is not in scope there.
+pub fn alias_chain_imports(m: &Model, ctx: &mut Ctx, rule: &str) {
+    let Some(vt) = anchor_fn(m, ctx, rule, Some("Rasn"), "value_to_tokens", None) else { return };
+    ctx.oblige(rule, "chain-types-in-scope", true);
+    let consts = const_resolver(m);
+    let hook = |_: &Evaluator, name: &str, a: &[Val]| -> Option<Result<Val, String>> {
+        match name {
+            ".to_rust_title_case" => a.get(1).map(|v| Ok(Val::Sym(match v { Val::Str(s) | Val::Sym(s) => s.clone(), o => o.show() }))),
+            _ => None,
+        }
+    };
+    let mut inl = inline_all(m, &["Rasn"]);
+    inl.retain(|k, _| k == ".value_to_tokens");
+    let ev = Evaluator { consts: &consts, call_hook: &hook, inline: Some(&inl) };
+    let ps: Vec<String> = vt.sig.inputs.iter().filter_map(|a| match a { syn::FnArg::Typed(t) => Some(tok(&t.pat)), _ => None }).collect();
+    let named = |n: &str, fields: Vec<(&str, Val)>| Val::Ctor(n.to_string(), vec![], fields.into_iter().map(|(k, v)| (k.to_string(), v)).collect::<BTreeMap<_, _>>());
+    let value = named("LinkedNestedValue", vec![("supertypes", Val::List(vec![Val::Str("Ty2".into()), Val::Str("Ty1".into())])), ("value", named("LinkedIntValue", vec![("integer_type", Val::ctor("Uint16")), ("value", Val::int(0))]))]);
+    let mut env = Env::new();
+    env.insert("self".into(), Val::ctor("Rasn"));
+    env.insert(ps.first().cloned().unwrap_or("value".into()), value);
+    env.insert(ps.get(1).cloned().unwrap_or("type_name".into()), Val::none());
+    let text = match ev.eval_fn_body(&vt.block, &mut env) {
+        Ok(Val::Ctor(ok, p, _)) if ok == "Ok" => p.first().map(|v| match v { Val::Sym(s) | Val::Str(s) => s.clone(), o => o.show() }).unwrap_or_default(),
+        Ok(o) => { ctx.fail_closed(rule, &format!("value_to_tokens on a chained value: {}", o.show().chars().take(100).collect::<String>())); return; }
+        Err(e) => { ctx.fail_closed(rule, &format!("value_to_tokens on a chained value: {}", e)); return; }
+    };
+    let bare = text.contains("Ty1") && !text.contains("::Ty1") && !text.contains(":: Ty1");
+    // who extends a module's import list, and does any of them look at reference chains?
+    let importers: Vec<&crate::model::FnInfo> = m.fns.iter().filter(|f| f.module.starts_with("validator") && tok(&f.block).contains("Import{")).collect();
+    let chain_aware = importers.iter().any(|f| { let b = tok(&f.block); b.contains("supertypes") || b.contains("LinkedNestedValue") })
+        || m.fns.iter().any(|f| f.module.starts_with("validator") && { let b = tok(&f.block); (b.contains("supertypes") || b.contains("LinkedNestedValue")) && (b.contains("associated_import_type(") || b.contains("imports.push")) });
+    if bare && !chain_aware {
+        ctx.violate(rule, "alias-chain-not-imported", &vt.file, vt.line,
+            &format!("a value whose governing type is reached through a chain of type references is rendered `{}` — every type of the chain by its bare name — and nothing that extends a module's imports ({}) looks at those chains: `IMPORTS Ty2 FROM A;  uval Ty2 ::= 0` with `Ty2 ::= Ty1` in A emits `Ty2(Ty1(0))` into a module that imports only Ty2 (E0425); the same for a DEFAULT of a component of type Ty2", text, importers.iter().map(|f| f.name.clone()).collect::<Vec<_>>().join(", ")));
+    }
+}
+
 pub fn run(m: &Model, ctx: &mut Ctx, facts: &Facts) {
     ctx.explanation = "C12.reset (MIR def-use + dominators): for every Backend impl, each field of the backend struct whose type is one of ModuleHeader's environment enums \
 (per-module state) must be assigned in generate_module from the corresponding field of the current module's header, and that assignment must dominate every call in generate_module \
@@ -56,6 +97,7 @@ C12.imports (syn): one `use super::<snake(module)>::{..}` per import with const-
 module-qualified references render `super::<snake(module)>::<Title>` through the same manglers; the TypeScript analog `import X = NS.X`. \
 Equality of the per-module output between two different compilations is not computed.".into();
     qualified_value(m, ctx, "C12.qualified");
+    alias_chain_imports(m, ctx, "C12.chain");
     ctx.assumptions = vec![
         "MIR dominators over the non-unwind CFG; field names resolved from ADT definitions by the driver".into(),
         "all definitions of one module share one header (Rc) — established in internal_compile (C12.header)".into(),
